@@ -79,6 +79,13 @@ class LoopAdapter:
                 raise RuntimeError('planned')
             elif kind == 'poke':
                 env.handles[h]().dispatch('poke', 0, 0)
+            elif kind == 'respawn':
+                other = env.handles[h]()
+                other.delete_entity(other._verif_obs, immediate=True)
+                other.dispatch('poke', 0, 0)
+                o = Observer()
+                o.w = other
+                other._verif_obs = other.create_entity(o)
 
         class P1(d.Processor):
             priority = 0
@@ -146,7 +153,7 @@ class LoopAdapter:
             world.add_processor(d.OnUpdateProcessor(), 1)
             world.add_processor(d.CoroutineProcessor(), 2)
             world.add_processor(P2())
-            world.create_entity(Observer())
+            world._verif_obs = world.create_entity(Observer())
 
         env.keep = []
         env.handles = {}
